@@ -71,6 +71,26 @@ impl COracle for Oracle {
             }
         }
         ctx.stats.fault("truncate");
+        {
+            // a well-formed element of the wrong number of bytes (a bare point is a JSON array of bytes, a
+            // point inside an evaluation a base64 string: whichever form this build uses)
+            use base64::{engine::Engine as _, prelude::BASE64_STANDARD};
+            let as_string: Option<Vec<u8>> = serde_json::from_slice::<String>(&js).ok().and_then(|s| BASE64_STANDARD.decode(s).ok());
+            let as_array: Option<Vec<u8>> = serde_json::from_slice::<Vec<u8>>(&js).ok();
+            let is_string = as_string.is_some();
+            let raw = as_string.or(as_array).unwrap_or_default();
+            if raw.len() == 32 {
+                for n in [0usize, 1, 16, 31, 33, 64] {
+                    let mut bytes = raw.clone();
+                    bytes.resize(n, 0);
+                    let j = if is_string { serde_json::to_vec(&BASE64_STANDARD.encode(&bytes)) } else { serde_json::to_vec(&bytes) }.unwrap_or_default();
+                    ctx.stats.fault("element_of_wrong_length_in_json");
+                    if serde_json::from_slice::<pp::Point>(&j).is_ok() {
+                        return Err(Violation::new("c15.truncated_ok", "json_point_length", format!("a JSON point carrying {} bytes instead of 32 was accepted", n)));
+                    }
+                }
+            }
+        }
         ctx.stats.probe("points_checked");
         Ok(())
     }
@@ -171,6 +191,51 @@ impl COracle for Oracle {
             }
         }
         ctx.stats.fault("truncate");
+        // truncation INSIDE a field: every base64 string of the JSON form that carries a 32-byte element is
+        // replaced by well-formed (padded) base64 of fewer or more bytes; byte truncation of the text never
+        // produces these, because it breaks the padding first
+        {
+            use base64::{engine::Engine as _, prelude::BASE64_STANDARD};
+            fn strings(v: &serde_json::Value, path: &mut Vec<String>, out: &mut Vec<(Vec<String>, String)>) {
+                match v {
+                    serde_json::Value::String(s) => out.push((path.clone(), s.clone())),
+                    serde_json::Value::Object(m) => {
+                        for (k, c) in m {
+                            path.push(k.clone());
+                            strings(c, path, out);
+                            path.pop();
+                        }
+                    }
+                    _ => {}
+                }
+            }
+            fn set(v: &mut serde_json::Value, path: &[String], s: String) {
+                match path.split_first() {
+                    None => *v = serde_json::Value::String(s),
+                    Some((k, rest)) => set(&mut v[k.as_str()], rest, s),
+                }
+            }
+            let root: serde_json::Value = serde_json::from_slice(x.eval_json).map_err(|e| Violation::new("c.exchange", "json", e.to_string()))?;
+            let mut found = Vec::new();
+            strings(&root, &mut Vec::new(), &mut found);
+            for (path, s) in found {
+                let raw = match BASE64_STANDARD.decode(&s) {
+                    Ok(r) if r.len() == 32 => r,
+                    _ => continue,
+                };
+                for n in [0usize, 1, 15, 16, 30, 31, 33, 34, 64] {
+                    let mut bytes = raw.clone();
+                    bytes.resize(n, 0);
+                    let mut v = root.clone();
+                    set(&mut v, &path, BASE64_STANDARD.encode(&bytes));
+                    let js = serde_json::to_vec(&v).unwrap_or_default();
+                    ctx.stats.fault("element_of_wrong_length_in_json");
+                    if serde_json::from_slice::<pp::Evaluation>(&js).is_ok() {
+                        return Err(Violation::new("c15.truncated_ok", "json_element_length", format!("a JSON evaluation whose field {} carries {} bytes instead of 32 was accepted", path.join("."), n)));
+                    }
+                }
+            }
+        }
         for _ in 0..4 {
             // byte faults: an accepted value must be exactly what the bytes say (stable re-serialisation)
             let mut b = x.eval_json.to_vec();
